@@ -121,6 +121,13 @@ pub fn install_panic_hook() {
     LAST_PANIC_LOC.with(|l| *l.borrow_mut() = loc.clone());
     let msg = info.to_string();
     if msg.contains("unsafe precondition") || msg.contains("cannot unwind") || msg.contains("panic in a destructor") {
+      static REPORTED: AtomicBool = AtomicBool::new(false);
+      if REPORTED.swap(true, Ordering::SeqCst) {
+        // another thread is already reporting and will exit the process
+        loop {
+          std::thread::park();
+        }
+      }
       let prop = CURRENT_PROP.lock().map(|p| p.clone()).unwrap_or_default();
       let case = CURRENT_CASE.with(|c| c.borrow().clone());
       let dir = VERIF_DIR.lock().map(|p| p.clone()).unwrap_or_default();
